@@ -442,6 +442,12 @@ class World:
             return VObj(ex.fresh("res_" + con.qualname.split(".")[-1], V))
         if isinstance(r, C.Desc):
             return r.fresh(ex, "res_%s!%d" % (con.qualname.split(".")[-1], next(ex.counter)))
+        if isinstance(r, str) and r.startswith("like:"):
+            src = fr.env[r[5:]]
+            v = self.ext.havoc_like(ex, src, "res_%s" % con.qualname.split(".")[-1])
+            if isinstance(v, (VSeq, VMap)):
+                ex.created.add(id(v))
+            return v
         if isinstance(r, str):
             # result is given as an expression of the parameters (a spec function)
             return ex.spec_eval(r, fr, {})
